@@ -173,6 +173,25 @@ func vh_C09_FullAndClosed() {
 	vfReach("end")
 }
 
+// a pool told NOT to close its job queue on Close() must still refuse work once closed, and run none of it
+func vh_C09_ClosedPoolKeepingItsQueue() {
+	vfSetMapOrder(2)
+	l := &c09Log{started: map[int]int{}}
+	p := c09Pool(l, 1, vfRange("standby", 0, 1), 2, 1)
+	p.SetIsJobQueueClosedWhenClose(false)
+	vfAssert("first-job-accepted", p.Schedule(l.job(0, false, false)) == nil)
+	vfQuiesce()
+	vfAssert("first-job-ran", l.started[0] == 1)
+	p.Close()
+	vfAssert("isclosed", p.IsClosed())
+	vfAssert("closed-error", p.Schedule(l.job(1, false, false)) == ErrWorkerPoolIsClosed)
+	vfAssert("closed-error-timeout", p.ScheduleWithTimeout(l.job(2, false, false), 90*time.Millisecond) == ErrWorkerPoolIsClosed)
+	NewDefaultInvokable[int](p, func(v int) { l.job(3, false, false)() }).Invoke(7)
+	vfQuiesce()
+	vfAssert("nothing-submitted-after-close-runs", l.started[1] == 0 && l.started[2] == 0 && l.started[3] == 0)
+	vfReach("end")
+}
+
 func vh_C09_Invoke() {
 	vfSetMapOrder(2)
 	l := &c09Log{started: map[int]int{}}
